@@ -68,6 +68,7 @@ def handle (args : List String) : String :=
         if op = "wf" then showFields (wordFields env parts)
         else if op = "specwf" then showFields (posixFields env parts)
         else if op = "lit" then toHex (literal env parts)
+        else if op = "litkeep" then toHex (literalKeepEscapes env parts)
         else if op = "speclit" then toHex (posixLiteral env parts)
         else "bad-op"
       | _, _ => "bad-op"
